@@ -986,7 +986,8 @@ class Columns(Widget, WidgetContainerMixin, WidgetContainerListContentsMixin):
         # a hidden PACK column still takes part in the layout (its packed width decided that it
         # does not fit): the canvas then depends on every column widget, not only the rendered ones
         hidden_pack = any(
-            width <= 0 and t == WHSettings.PACK for width, (_, (t, _n, _b)) in zip(widths, self.contents)
+            t == WHSettings.PACK and (i >= len(widths) or widths[i] <= 0)
+            for i, (_, (t, _n, _b)) in enumerate(self.contents)
         )
 
         data: list[tuple[Canvas, int, bool, int]] = []
